@@ -259,7 +259,12 @@ static Plan gen_C05(uint64_t seed, Rng &r, uint64_t index) {
         case 7: { int cs = active >= 0 ? active : sid; o = mk(OP_EMIT, rnd_dt(r), {cs, -1, node, rnd_seq(r), -1, 0}); o.blob = rnd_descs(r, (size_t)r.range(1, 3)); if (active < 0) active = -2; break; }
         case 8: { int cs = active >= 0 ? active : sid; o = mk(OP_QUERY, rnd_dt(r), {cs, -1, node, rnd_seq(r), 0}); if (active < 0) active = -2; break; }
         default: {
-            if (r.chance(0.5)) { int cs = active >= 0 ? active : sid; o = mk(OP_QLT, rnd_dt(r), {cs, -1, node, rnd_seq(r), 0x11, 0, (int64_t)r.below(2)}); if (active < 0) active = -2; }
+            if (r.chance(0.5)) {
+                bool zero = r.chance(0.3); // sequence number 0: must be ignored, so any station may send it at any time
+                int cs = (active >= 0 && !zero) ? active : sid;
+                o = mk(OP_QLT, rnd_dt(r), {cs, -1, node, zero ? 0 : (int64_t)rnd_seq(r), r.pickl({0x11, 0x0E, 0x13}), 0, (int64_t)r.below(2)});
+                if (active < 0 && !zero) active = -2;
+            }
             else { o = mk(OP_STRAY, rnd_dt(r), {sid, r.chance(0.6) ? 2 : (int64_t)r.below(256), r.chance(0.6) ? r.range(0, 12) : r.range(0, 255), r.chance(0.5) ? node : -1, rnd_seq(r), 0, 0}); o.blob = {0x12, 0x34, 0, 0}; }
         }
         }
@@ -357,7 +362,7 @@ static Plan gen_C08(uint64_t seed, Rng &r) {
     p.ops.push_back(mk(OP_DISCOVER, 5, {mapper, br, 0, rnd_gen(r), rnd_seq(r), 0, 0, 0}));
     int nops = (int)r.range(2, 14);
     for (int i = 0; i < nops; i++) {
-        int x = (int)r.below(12);
+        int x = (int)r.below(13);
         int tos = r.chance(0.85) ? 0 : 1;
         if (x < 5) p.ops.push_back(mk(OP_FETCH, (uint32_t)r.range(5, 80), {mapper, br, 0, rnd_seq(r), r.pickl({0x0E, 0x0E, 0x11, 0x13}), tos, 90}));
         else if (x < 9) {
@@ -366,7 +371,12 @@ static Plan gen_C08(uint64_t seed, Rng &r) {
             p.ops.push_back(mk(OP_QLT, (uint32_t)r.range(5, 80), {mapper, br, 0, r.chance(0.1) ? 0 : (int64_t)rnd_seq(r), r.chance(0.8) ? r.pickl({0x0E, 0x11, 0x13}) : r.range(0, 255), off & 0xFFFF, tos}));
         } else if (x < 10) { p.ops.push_back(mk(OP_RESET, 10, {mapper, -1, 0, 0, 0, 0})); }
         else if (x < 11) p.ops.push_back(mk(OP_ATTR, 5, {0, (int64_t)(r.next() >> 1), G_ICON | G_FNAME | G_HWID}));
-        else { Op o = mk(OP_QLT, 5, {mapper, br, 0, rnd_seq(r), 0x0E, r.range(0, 2000), 0}); Fault f; f.kind = r.chance(0.5) ? F_DUP : F_DELAY; f.a = r.range(1, 20); o.f.push_back(f); p.ops.push_back(o); }
+        else if (r.chance(0.5)) { Op o = mk(OP_QLT, 5, {mapper, br, 0, rnd_seq(r), 0x0E, r.range(0, 2000), 0}); Fault f; f.kind = r.chance(0.5) ? F_DUP : F_DELAY; f.a = r.range(1, 20); o.f.push_back(f); p.ops.push_back(o); }
+        else { // another station asks as well (its own sequence numbers), while the mapper's session is open
+            int other = (mapper + 1 + (int)r.below(2)) % 4;
+            if (r.chance(0.5)) p.ops.push_back(mk(OP_QLT, (uint32_t)r.range(5, 40), {other, rnd_bridge(r, other), 0, rnd_seq(r), r.pickl({0x0E, 0x11, 0x13}), r.chance(0.5) ? 0 : r.range(0, 3000), tos}));
+            else p.ops.push_back(mk(OP_FETCH, (uint32_t)r.range(5, 40), {other, rnd_bridge(r, other), 0, rnd_seq(r), r.pickl({0x0E, 0x11, 0x13}), tos, 90}));
+        }
     }
     p.tail_ms = 800;
     return p;
@@ -495,7 +505,7 @@ static Plan gen_C12(uint64_t seed, Rng &r) {
             else if (x < 16) p.ops.push_back(mk(OP_PARTITION, dt, {-1, r.chance(0.5) ? r.range(1000, 40000) : r.range(40000, 120000)}));
             else if (x < 17) p.ops.push_back(mk(OP_TICK, dt, {0}));
             else if (x < 18) { if (r.chance(0.5)) mapper = (int)r.below(3); p.ops.push_back(mk(OP_QUERY, dt, {mapper, -1, 0, rnd_seq(r), 0})); }
-            else if (x < 19) p.ops.push_back(mk(OP_CHARGE, dt, {mapper, 0, 0, rnd_seq(r)}));
+            else if (x < 19) { p.ops.push_back(mk(OP_CHARGE, dt, {mapper, 0, 0, rnd_seq(r)})); if (r.chance(0.5)) p.ops.push_back(mk(OP_TICK, (uint32_t)r.range(1000, 3000), {0})); if (r.chance(0.5)) p.ops.push_back(mk(OP_TICK, (uint32_t)r.range(28000, 45000), {0})); }
             else { Op e = mk(OP_EMIT, dt, {mapper, -1, 0, rnd_seq(r), -1, 0}); e.blob = rnd_descs(r, (size_t)r.range(1, 3)); p.ops.push_back(e); }
         }
         p.tail_ms = (uint32_t)(r.chance(0.5) ? r.range(1000, 8000) : r.range(8000, 130000));
@@ -515,7 +525,7 @@ static Plan gen_C12(uint64_t seed, Rng &r) {
             else if (x < 25) p.ops.push_back(mk(OP_A_HEARD, 0, {r.chance(0.7) ? r.range(1, 12) : r.range(12, 500)}));
             else if (x < 27) p.ops.push_back(mk(OP_A_DISCBOOK, 0, {}));
             else if (x < 28) p.ops.push_back(mk(OP_A_ENUM, 0, {(int64_t)r.below(4)}));
-            else if (x < 29) p.ops.push_back(mk(OP_A_MAP, 0, {r.pickl({0, 2, 8, -1, -3, 6})}));
+            else if (x < 29) p.ops.push_back(r.chance(0.7) ? mk(OP_A_MAP, 0, {r.pickl({0, 2, 8, -1, -3, 6})}) : mk(OP_A_CHARGE, 0, {}));
             else p.ops.push_back(mk(OP_A_INACT, 0, {}));
         }
     }
